@@ -240,6 +240,22 @@ class Evaluator:
                     break
             if not broke:
                 self.block(st.orelse, env, f, depth)
+        elif isinstance(st, ast.While):
+            rounds = 0
+            broke = False
+            while self.truth(self.expr(st.test, env, f, depth), st.test):
+                rounds += 1
+                if rounds > 20000:
+                    raise AnalysisError("while loop does not terminate within 20000 abstract iterations (%s)" % f.loc(st))
+                try:
+                    self.block(st.body, env, f, depth)
+                except _Continue:
+                    continue
+                except _Break:
+                    broke = True
+                    break
+            if not broke:
+                self.block(st.orelse, env, f, depth)
         elif isinstance(st, ast.Break):
             raise _Break()
         elif isinstance(st, ast.Continue):
@@ -475,6 +491,10 @@ class Evaluator:
             return a - b
         if isinstance(op, ast.Mult) and isinstance(a, (int, float)) and isinstance(b, (int, float)):
             return a * b
+        if isinstance(op, ast.Mod) and isinstance(a, (int, float)) and isinstance(b, (int, float)) and not isinstance(a, bool) and b != 0:
+            return a % b
+        if isinstance(op, ast.FloorDiv) and type(a) is int and type(b) is int and b != 0:
+            return a // b
         if isinstance(op, ast.Mult) and isinstance(a, str) and type(b) is int or isinstance(b, str) and type(a) is int:
             return a * b
         return Opaque("arith")
